@@ -102,7 +102,7 @@ func init() {
 	register(&Prop{
 		ID:         "C05",
 		Title:      "Conditional writes are decided on the target item only, atomically",
-		Decided:    "(R1) every evaluation of a write condition (a call of the core function that builds a MatchInput of kind 'conditional', with a condition set) receives as item the map stored under – or the empty map for – the key derived with the table's own GetKey from the request in the same function; (R2) no QueryInput that reaches the whole-table iteration (SearchData) ever carries a write condition, and no client write method evaluates a condition by iterating the table; (R3) in Put/Update/Delete the condition verdict is obtained before the first state write and the failing edge returns without any write (typestate, shared with C08.R1), the documented interpreter panic can only be raised before any write; (R4) the failing edge yields the code ConditionalCheckFailedException, the v2 adapter maps that code to the SDK type and carries Item; the item attached on request is the stored item; (R5) all three write operations (PutItem, UpdateItem, DeleteItem) hand their condition to core; (R7) the target item is the one stored under the key of the request: the key derivation folds no two key values into one (= C01.R8), otherwise the condition is decided on a bystander.",
+		Decided:    "(R1) every evaluation of a write condition (a call of the core function that builds a MatchInput of kind 'conditional', with a condition set) receives as item the map stored under – or the empty map for – the key derived with the table's own GetKey from the request in the same function; (R2) no QueryInput that reaches the whole-table iteration (SearchData) ever carries a write condition, and no client write method evaluates a condition by iterating the table; (R3) in Put/Update/Delete the condition verdict is obtained before the first state write and the failing edge returns without any write (typestate, shared with C08.R1), the documented interpreter panic can only be raised before any write; (R4) the failing edge yields the code ConditionalCheckFailedException, the v2 adapter maps that code to the SDK type and carries Item; the item attached on request is the stored item; (R5) all three write operations (PutItem, UpdateItem, DeleteItem) hand their condition to core; (R7) the target item is the one stored under the key of the request: the key derivation folds no two key values into one (= C01.R8), otherwise the condition is decided on a bystander; (R8) the values a condition compares the target item with are the ones the request supplied: the request's values are loaded after the item and win (= C06.R10).",
 		NotDecided: "the truth value of the condition itself (C06); equality of table state before/after a refused write is implied by 'no write before the verdict', not computed.",
 		Rules: []RuleDef{
 			{ID: "R1", Desc: "the condition sees Data[GetKey(request)] or the empty item (T-FLOW/SSA origin)", Run: func(e *Engine) {
@@ -440,6 +440,7 @@ func init() {
 				}
 			}},
 			{ID: "R7", Desc: "the target item is identified without loss: no rounding, trimming or folding on the key derivation path (= C01.R8)", Run: aliasRule("R7", c01R8, nil)},
+			{ID: "R8", Desc: "the condition compares against the values the request supplied: placeholders are not shadowed by stored attributes (= C06.R10)", Run: aliasRule("R8", c06R10, nil)},
 		},
 	})
 }
